@@ -1,6 +1,6 @@
 """C12 Third-order response: exact orientational average, additivity, symmetry.
 
-E-grid, two complete products.
+E-grid, three complete products.
 
 Section `lab` (prefactor clause at the level of LabSetup.F4eM4 / liouville_pathway.build /
 orientational_averaging): every polarisation four-tuple from {X, Y, Z, (X+Y)/sqrt2, magic-angle
@@ -20,6 +20,19 @@ applied: all 5^4 polarisation four-tuples on every generated pathway (prefactor 
 rotations of the tier applied to all dipoles and, separately, to all polarisations, for every
 base polarisation setting of the tier; all scale factors; the separately built monomers when the
 coupling is zero.
+
+Section `reuse` (histories of ONE MockTwoDResponseCalculator object, bootstrapped once): operation
+alphabet = use the calculator for system s, s from {single molecules 0, 1, 2; dimer built with
+mult=1, coupled trimer built with mult=1 (no two-exciton band); uncoupled dimer (molecules 0,1 and
+1,2), coupled dimer, uncoupled trimer, coupled trimer (thorough) built with mult=2}, and "bootstrap
+again with the same arguments".  ALL operation sequences of length 2 (quick) / 3 (thorough), with
+repetition (so also the same system again), in the product line shape x api (calculate_one_system
+at t2 = 0 and 20 fs / calculate_all_system over the t2 axis) x line widths x dynamics.  A use of
+the calculator = every base polarisation setting x every waiting time.  After EVERY use the result
+is compared with the result of a fresh calculator for that system, polarisation and waiting time
+(differential oracle, clause `reuse/fresh-differs`, pathway census), and the reference oracles
+pref (on the prefactors as the pipeline left them), total (sum, re-read, ledger) and uncoupled
+(sum of the separately calculated molecules) are applied to it.
 
 Clauses and oracles (tolerance class R everywhere: 1e-10 * scale)
   pref      pathway.pref == sign * rho0 * evolution factor * <prod_k e_k . R d_k>_SO(3), the average
@@ -303,21 +316,27 @@ class Bench:
         pw = {}
         tw = self.calc.calculate_one_system(self.spec["t2"], agg, self.eUt, lab, pways=pw)
         self.ncalc += 1
-        out = {}
-        for name, flag in (("REPH", qr.signal_REPH), ("NONR", qr.signal_NONR),
-                           ("total", qr.signal_TOTL)):
-            tw.set_data_flag(flag)
-            out[name] = numpy.array(tw.d__data, dtype=complex)
-        # history of reads on the same response object: the parts and the total read again, in
-        # another order, must be what was read first (a read must not change what is stored)
-        again = {}
-        for name, flag in (("total", qr.signal_TOTL), ("REPH", qr.signal_REPH),
-                           ("total2", qr.signal_TOTL), ("NONR", qr.signal_NONR)):
-            tw.set_data_flag(flag)
-            again[name] = numpy.array(tw.d__data, dtype=complex)
-        out["_reread"] = max(float(numpy.max(numpy.abs(again[k] - out[k.rstrip("2")])))
-                             for k in again)
-        return out, pw[str(self.spec["t2"])]
+        return read_response(tw), pw[str(self.spec["t2"])]
+
+
+def read_response(tw):
+    """The three signals of one TwoDResponse object (+ `_reread`, see below)."""
+    qr = isolation.qr()
+    out = {}
+    for name, flag in (("REPH", qr.signal_REPH), ("NONR", qr.signal_NONR),
+                       ("total", qr.signal_TOTL)):
+        tw.set_data_flag(flag)
+        out[name] = numpy.array(tw.d__data, dtype=complex)
+    # history of reads on the same response object: the parts and the total read again, in
+    # another order, must be what was read first (a read must not change what is stored)
+    again = {}
+    for name, flag in (("total", qr.signal_TOTL), ("REPH", qr.signal_REPH),
+                       ("total2", qr.signal_TOTL), ("NONR", qr.signal_NONR)):
+        tw.set_data_flag(flag)
+        again[name] = numpy.array(tw.d__data, dtype=complex)
+    out["_reread"] = max(float(numpy.max(numpy.abs(again[k] - out[k.rstrip("2")])))
+                         for k in again)
+    return out
 
 
 SIGNALS = ("REPH", "NONR", "total")
@@ -565,10 +584,263 @@ def eval_sys(case, tier):
 
 
 # ------------------------------------------------------------------------------------------
+# section `reuse`: histories of one calculator object
+# ------------------------------------------------------------------------------------------
+BOOT = "B"                       # the operation "bootstrap again with the same arguments"
+# system alphabet of the histories: name -> (molecules, J, topology, mult of Aggregate.build);
+# no two-exciton band: single molecules and aggregates built with mult=1
+REUSE_SYSTEMS = [
+    ("m0", ((0,), 0, "chain", 2)),
+    ("m1", ((1,), 0, "chain", 2)),
+    ("m2", ((2,), 0, "chain", 2)),
+    ("d1:J0", ((0, 1), 0, "chain", 1)),
+    ("d2:J0", ((0, 1), 0, "chain", 2)),
+    ("d2:J0:s12", ((1, 2), 0, "chain", 2)),
+    ("d2:J80", ((0, 1), 80, "chain", 2)),
+    ("t1:J80", ((0, 1, 2), 80, "chain", 1)),
+    ("t2:J0", ((0, 1, 2), 0, "chain", 2)),
+    ("t2:J80", ((0, 1, 2), 80, "chain", 2)),
+]
+REUSE_POLS = ["XXYY", "XMDZ"]
+# api `one`: calculate_one_system at every listed waiting time, in this order, for every
+# polarisation setting; api `all`: calculate_all_system (whole t2 axis) for every setting
+REUSE_T2 = {"one": (0.0, 20.0), "all": (0.0, 10.0, 20.0)}
+REUSE_DEPTH = {"quick": 2, "thorough": 3}
+# the coupled trimer with two-exciton band (hundreds of pathways) only in thorough
+REUSE_NAMES = {"quick": [nm for nm, _ in REUSE_SYSTEMS if nm != "t2:J80"],
+               "thorough": [nm for nm, _ in REUSE_SYSTEMS]}
+
+
+def reuse_spec(case, name):
+    sites, J, topo, _mult = dict(REUSE_SYSTEMS)[name]
+    n = len(sites)
+    return {"n": n, "E": [ENERGIES[case["en"]][s] for s in sites],
+            "dip": [list(SYS_DIPOLES[s]) for s in sites], "J": coupling(n, J, topo),
+            "lw": [LINEWIDTHS[case["lw"]][s] for s in sites], "dyn": case["dyn"],
+            "sites": list(sites), "shape": case["shape"], "t2": None}
+
+
+class ReuseSystem:
+    """One letter of the system alphabet: aggregate (built with the mult of the letter,
+    diagonalised) and the evolution superoperator of its one-exciton block."""
+
+    def __init__(self, case, name):
+        sites, J, _topo, mult = dict(REUSE_SYSTEMS)[name]
+        self.name = name
+        self.spec = reuse_spec(case, name)
+        self.eUt = Bench(self.spec).eUt
+        self.agg = build_aggregate(self.spec, mult)
+        self.agg.diagonalize()
+        self.band = bool(mult >= 2 and len(sites) >= 2)
+        self.tag = "two-exciton-band" if self.band else "no-two-exciton-band"
+        # uncoupled with two-exciton band: the additivity clause applies
+        self.parts = ["m%d" % s for s in sites] if (self.band and J == 0) else None
+
+
+def bootstrap_calculator(calc, shape):
+    qr = isolation.qr()
+    with qr.energy_units("1/cm"):
+        calc.bootstrap(rwa=RWA, shape=shape)
+
+
+def new_calculator(shape):
+    qr = isolation.qr()
+    from quantarhei.spectroscopy.mocktwodcalculator import MockTwoDResponseCalculator
+    calc = MockTwoDResponseCalculator(qr.TimeAxis(0.0, N13, DT13), qr.TimeAxis(*T2AXIS),
+                                      qr.TimeAxis(0.0, N13, DT13))
+    bootstrap_calculator(calc, shape)
+    return calc
+
+
+def census(pws):
+    out = {}
+    for p in pws:
+        out[p.pathway_name] = out.get(p.pathway_name, 0) + 1
+    return out
+
+
+def pref_as_made(agg, pws, e4):
+    """Relative deviation of the prefactor each pathway carries (as the pipeline left it, for the
+    polarisations e4 of the call) from sign * rho0 * evolution factor * <SO(3) average>."""
+    npw = len(pws)
+    rho0 = numpy.array([float(numpy.real(agg.rho0[p.transitions[0, 1], p.transitions[0, 1]]))
+                        for p in pws])
+    evf = numpy.array([complex(p.evolfac) for p in pws])
+    sref = numpy.array([ISO.diagram_sign(p.sides) for p in pws])
+    d4 = numpy.array([[agg.DD[int(p.transitions[k, 0]), int(p.transitions[k, 1]), :]
+                       for k in range(4)] for p in pws], dtype=float).reshape(npw, 4, 3)
+    dscale = numpy.prod(numpy.sqrt(numpy.sum(d4 ** 2, axis=2)), axis=1) * rho0 * numpy.abs(evf)
+    dscale = dscale * numpy.prod(numpy.sqrt(numpy.sum(numpy.asarray(e4) ** 2, axis=1)))
+    R, w = ISO.rule()
+    P = numpy.einsum("ki,rij,pkj->rpk", numpy.asarray(e4, dtype=float), R, d4)
+    ref = numpy.einsum("r,rp->p", w, numpy.prod(P, axis=2)) * sref * rho0 * evf
+    got = numpy.array([complex(p.pref) for p in pws])
+    rel = numpy.abs(got - ref) / numpy.maximum(dscale, 1e-300)
+    return numpy.where(numpy.isfinite(rel), rel, numpy.inf), got, ref
+
+
+def reuse_step(calc, S, labs, api, t2s):
+    """One step of a history: the calculator is used for system S with every polarisation
+    setting and every waiting time.  Returns {(pol, t2): (signals, pathways or None)}."""
+    out = {}
+    for b in REUSE_POLS:
+        if api == "one":
+            for t2 in t2s:
+                pw = {}
+                tw = calc.calculate_one_system(t2, S.agg, S.eUt, labs[b], pways=pw)
+                out[(b, t2)] = (read_response(tw), list(pw[str(t2)]))
+        else:
+            cont = calc.calculate_all_system(S.agg, S.eUt, labs[b])
+            for t2 in t2s:
+                tw = cont.get_spectrum(t2)
+                # the pathways of the last waiting time are what the calculator holds now
+                pws = list(calc.pathways) if t2 == t2s[-1] else None
+                out[(b, t2)] = (read_response(tw), pws)
+    return out
+
+
+def eval_reuse(case, tier):
+    shape, api, first, depth = case["shape"], case["api"], case["first"], case["depth"]
+    t2s = REUSE_T2[api]
+    names = list(REUSE_NAMES[tier])
+    ops = names + [BOOT]
+    systems = {nm: ReuseSystem(case, nm) for nm in names}
+    labs = {b: make_lab(polvec(b)) for b in REUSE_POLS}
+    lwtag = "equal-widths" if case["lw"] != "mixed" else "unequal-widths"
+    viol, dev = {}, {}
+    ncalc = 0
+
+    def add(key, what, det=None):
+        if key not in viol:
+            viol[key] = (key, what, det)
+
+    def worst(name, x):
+        x = float(x) if numpy.isfinite(x) else 1e300
+        dev[name] = max(dev.get(name, 0.0), x)
+
+    # reference of the differential oracle: a fresh calculator for every single calculation
+    fresh = {}
+    for nm in names:
+        S = systems[nm]
+        for b in REUSE_POLS:
+            for t2 in t2s:
+                pw = {}
+                tw = new_calculator(shape).calculate_one_system(t2, S.agg, S.eUt, labs[b],
+                                                                pways=pw)
+                ncalc += 1
+                fresh[(nm, b, t2)] = (read_response(tw), census(pw[str(t2)]))
+
+    def check(full, k, calc, res):
+        op = full[k]
+        S = systems[op]
+        prev = full[k - 1] if k > 0 else BOOT
+        after = ("bootstrap" if prev == BOOT else
+                 "same-system" if prev == op else systems[prev].tag)
+        hist = " -> ".join(full[:k + 1])
+        det = {"history": list(full[:k + 1])}
+        for (b, t2), (sig, pws) in res.items():
+            where = "history %s (api %s), polarisations %s, t2=%g" % (hist, api, b, t2)
+            fsig, fcen = fresh[(op, b, t2)]
+            d, parts = sig_dev(sig, fsig)
+            worst("reuse-fresh", d)
+            if not d <= TOL:
+                add("reuse/%s/fresh-differs/now=%s/after=%s/%s" % (api, S.tag, after, parts),
+                    "%s signal of the last system differs by %.3g (relative) from the one a "
+                    "fresh calculator gives for it; %s" % (parts, d, where), det)
+            sc = max(float(numpy.max(numpy.abs(sig["REPH"]))),
+                     float(numpy.max(numpy.abs(sig["NONR"]))), 1e-300)
+            if sig["_reread"] > TOL * sc:
+                add("reuse/%s/total/reread-differs/%s" % (api, shape),
+                    "reading total, REPH, total, NONR again from the same response object "
+                    "differs from the first reads by %.3g; %s" % (sig["_reread"] / sc, where),
+                    det)
+            d = float(numpy.max(numpy.abs(sig["total"] - (sig["REPH"] + sig["NONR"])))) / sc
+            worst("reuse-total-sum", d)
+            if not d <= TOL:
+                add("reuse/%s/total/sum/%s" % (api, shape),
+                    "total differs from REPH+NONR by %.3g (relative); %s" % (d, where), det)
+            if S.parts is not None:
+                tot = {s: sum(fresh[(m, b, t2)][0][s] for m in S.parts) for s in SIGNALS}
+                d, parts = sig_dev(sig, tot)
+                worst("reuse-uncoupled", d)
+                if not d <= TOL:
+                    add("reuse/%s/uncoupled/%s/%s/after=%s" % (api, shape, lwtag, after),
+                        "%s signal of the uncoupled aggregate differs by %.3g (relative) from "
+                        "the sum over its molecules (each with a fresh calculator); %s"
+                        % (parts, d, where), det)
+            if pws is None:
+                continue
+            cen = census(pws)
+            if cen != fcen:
+                missing = sorted(t for t in fcen if cen.get(t, 0) < fcen[t])
+                extra = sorted(t for t in cen if cen[t] > fcen.get(t, 0))
+                add("reuse/%s/pathway-census/now=%s/after=%s/%s"
+                    % (api, S.tag, after, ("missing=" + ",".join(missing)) if missing
+                       else ("extra=" + ",".join(extra))),
+                    "generated pathways %s, a fresh calculator generates %s; %s"
+                    % (sorted(cen.items()), sorted(fcen.items()), where), det)
+            if pws:
+                rel, got, ref = pref_as_made(S.agg, pws, polvec(b))
+                worst("reuse-pref", numpy.max(rel))
+                if not numpy.max(rel) <= TOL:
+                    ip = int(numpy.argmax(rel))
+                    add("reuse/%s/pref/%s/value" % (api, pws[ip].pathway_name),
+                        "pathway #%d %s transitions %s: pref=%r but sign*rho0*evf*<SO(3) "
+                        "average>=%r (rel.dev %.3g); %s"
+                        % (ip, pws[ip].pathway_name, pws[ip].transitions.tolist(),
+                           complex(got[ip]), complex(ref[ip]), float(rel[ip]), where), det)
+            led = {"R": 0.0, "NR": 0.0}
+            for p in pws:
+                led[p.pathway_type] = led[p.pathway_type] + calc.calculate_pathway(p, shape=shape)
+            for typ, name in (("R", "REPH"), ("NR", "NONR")):
+                sc1 = max(float(numpy.max(numpy.abs(sig[name]))), 1e-300)
+                d = float(numpy.max(numpy.abs(sig[name] - led[typ]))) / sc1
+                worst("reuse-ledger", d)
+                if not d <= TOL:
+                    add("reuse/%s/total/ledger/%s/%s" % (api, name, shape),
+                        "%s part differs from the sum over the generated %s-type pathways by "
+                        "%.3g (relative); %s" % (name, typ, d, where), det)
+
+    checked = set()
+    nchanges = 0
+    digest = 0.0
+    nhist = 0
+    for rest in itertools.product(ops, repeat=depth - 1):
+        full = (first,) + rest
+        nhist += 1
+        calc = new_calculator(shape)
+        for k, op in enumerate(full):
+            if op == BOOT:
+                bootstrap_calculator(calc, shape)
+                continue
+            res = reuse_step(calc, systems[op], labs, api, t2s)
+            ncalc += len(res)
+            if full[:k + 1] in checked:         # same prefix, same (deterministic) result
+                continue
+            checked.add(full[:k + 1])
+            check(full, k, calc, res)
+            if k > 0 and full[k - 1] != BOOT and systems[full[k - 1]].band != systems[op].band:
+                nchanges += 1
+            digest += sum(float(numpy.max(numpy.abs(s["total"]))) for s, _ in res.values())
+
+    fmax = [float(numpy.max(numpy.abs(fresh[(nm, REUSE_POLS[0], t2s[-1])][0]["total"])))
+            for nm in names]
+    nontrivial = bool(min(fmax) > 0.0 and nchanges > 0)
+    outcome = ["reuse", shape, api, case["lw"], case["dyn"], case["en"], first, depth,
+               round(digest, 6), [round(x, 6) for x in fmax]]
+    return {"nontrivial": nontrivial, "outcome": outcome, "violations": list(viol.values()),
+            "n": ncalc - 1,
+            "info": {"dev": dev, "unbuildable": 0, "npw": 0, "histories": nhist,
+                     "steps_checked": len(checked)}}
+
+
+# ------------------------------------------------------------------------------------------
 def eval_case(case):
     tier = case.get("_tier", "quick")
     if case["kind"] == "lab":
         return eval_lab(case, tier)
+    if case["kind"] == "reuse":
+        return eval_reuse(case, tier)
     return eval_sys(case, tier)
 
 
@@ -601,6 +873,13 @@ def sections(tier):
                              "dyn": dyns})
     sysc.sort(key=lambda c: (c["n"], abs(c["J"])))
     sec["sys"] = sysc
+    # one case = context x first operation; inside: ALL continuations up to the depth of the tier
+    sec["reuse"] = product({"kind": ["reuse"], "depth": [REUSE_DEPTH[tier]],
+                            "en": ["hetero"],
+                            "dyn": ["deph"] if quick else ["deph", "free"],
+                            "lw": ["mixed"] if quick else ["mixed", "100"],
+                            "shape": ["Gaussian", "Lorentzian"], "api": ["one", "all"],
+                            "first": REUSE_NAMES[tier] + [BOOT]})
     for lst in sec.values():
         for c in lst:
             c["_tier"] = tier
@@ -615,14 +894,20 @@ def cases(tier):
 
 
 def run(run):
-    run.rule = ("two complete products: `lab` = all 5^4 polarisation four-tuples (inside each: all "
+    run.rule = ("three complete products: `lab` = all 5^4 polarisation four-tuples (inside each: all "
                 "4^4 dipole four-tuples x all side patterns of the tier); `sys` = size x site "
                 "energies x coupling x topology x line-width pattern x waiting time x line shape "
                 "x excited-state dynamics (inside each: all 5^4 polarisation four-tuples on every "
                 "generated pathway, all rotations of the tier on dipoles and on polarisations for "
                 "every base polarisation setting, all scale factors, the separately built "
-                "monomers when J=0); non-trivial = lab: some average of the point exceeds 1e-9 in magnitude; sys: pathways of both "
-                "excited-state-absorption types were generated and the total signal is non-zero")
+                "monomers when J=0); `reuse` = line shape x api x line widths x dynamics x first "
+                "operation on one bootstrapped calculator (inside each: ALL continuations up to "
+                "the history depth over the alphabet {use for system s} + {bootstrap again}, every "
+                "use = all base polarisations x waiting times, every result compared with a fresh "
+                "calculator and with the reference oracles); non-trivial = lab: some average of the point exceeds 1e-9 in magnitude; sys: pathways of both "
+                "excited-state-absorption types were generated and the total signal is non-zero; "
+                "reuse: some history of the case uses the calculator for a system with two-exciton "
+                "band right after one without (or the reverse) and all fresh signals are non-zero")
     run.assumptions = [
         "reference: mc/refmodels/iso_average.py, 5x3x5 = 75-rotation product quadrature over the "
         "Euler angles (periodic trapezoid x Gauss-Legendre in cos beta), exact for the degree-4 "
@@ -642,8 +927,15 @@ def run(run):
         "site energies are distinct or the Hamiltonian is diagonal, so eigenvectors are unique up "
         "to sign in both diagonalisations the pipeline performs",
     ]
+    run.assumptions.append(
+        "reuse histories: the same aggregate / evolution-superoperator objects of a system are "
+        "used by the shared and by the fresh calculators; re-bootstrapping uses the arguments of "
+        "the first bootstrap; a calculator is not shared between line shapes or time axes")
     rots = rotations(run.tier)
-    run.bounds = {"polarisation alphabet": POLN, "dipole alphabet (lab)": ISO.DIPOLES4,
+    run.bounds = {"reuse: history depth": REUSE_DEPTH[run.tier],
+                  "reuse: operations": REUSE_NAMES[run.tier] + [BOOT],
+                  "reuse: polarisations": REUSE_POLS, "reuse: waiting times": REUSE_T2,
+                  "polarisation alphabet": POLN, "dipole alphabet (lab)": ISO.DIPOLES4,
                   "side patterns (lab)": len(SIDES[run.tier]),
                   "sizes": [2, 3], "J": [0, 80, -150], "rotations": len(rots),
                   "base polarisations": POLBASES[run.tier], "scales": SCALES[run.tier],
